@@ -417,3 +417,12 @@ class Oracle:
             if not ok:
                 bad.append("%s: documented equations give %r, code returns %r" % (name, w, g))
         return bad
+
+
+def parse_nodes(reply: str):
+    """driver reply `nodes n (λ re im)*` -> [(λ, re, im)]"""
+    t = reply.split()
+    assert t[0] == "nodes", reply
+    n = int(t[1])
+    vals = [h2f(x) for x in t[2:]]
+    return [tuple(vals[3 * i:3 * i + 3]) for i in range(n)]
